@@ -4,6 +4,8 @@ import (
 	"fmt"
 	"go/token"
 	"strings"
+
+	"golang.org/x/tools/go/ssa"
 )
 
 // strCells returns the byte cells of a string-like value.
@@ -138,18 +140,48 @@ func truth(v value) bool {
 // selectCell returns cells[idx] for symbolic idx as an ite chain (bytes only).
 func selectCell(cells []value, idx sym) value {
 	if len(cells) == 0 {
-		panic("index out of range (symbolic) on empty")
+		panic("runtime error: index out of range [symbolic] with length 0")
 	}
-	// bounds check
-	inb := sym{t: fmt.Sprintf("(bvult %s %s)", idx.t, bvlit(uint64(len(cells)), idx.w))}
-	if !ex.decide(inb) {
-		panic(fmt.Sprintf("runtime error: index out of range [symbolic] with length %d", len(cells)))
+	if v, ok := ex.known[idx.t]; ok {
+		if v >= uint64(len(cells)) {
+			panic(fmt.Sprintf("runtime error: index out of range [%d] with length %d", v, len(cells)))
+		}
+		return cells[v]
 	}
-	r := toSym(cells[len(cells)-1])
-	for i := len(cells) - 2; i >= 0; i-- {
-		r = sym{fmt.Sprintf("(ite (= %s %s) %s %s)", idx.t, bvlit(uint64(i), idx.w), toSym(cells[i]).t, r.t), r.w, r.signed}
+	// bounds check (trivially true when the index type cannot exceed the length)
+	if idx.w >= 64 || uint64(len(cells)) < uint64(1)<<uint(idx.w) {
+		inb := sym{t: fmt.Sprintf("(bvult %s %s)", idx.t, bvlit(uint64(len(cells)), idx.w))}
+		if !ex.decide(inb) {
+			panic(fmt.Sprintf("runtime error: index out of range [symbolic] with length %d", len(cells)))
+		}
 	}
-	return r
+	// the most frequent concrete value becomes the default of the ite chain
+	first := toSym(cells[0])
+	cnt := map[string]int{}
+	best, bestN := "", 0
+	terms := make([]string, len(cells))
+	for i, c := range cells {
+		t := toSym(c).t
+		terms[i] = t
+		cnt[t]++
+		if cnt[t] > bestN {
+			best, bestN = t, cnt[t]
+		}
+	}
+	var sb strings.Builder
+	n := 0
+	for i, t := range terms {
+		if t == best {
+			continue
+		}
+		fmt.Fprintf(&sb, "(ite (= %s %s) %s ", idx.t, bvlit(uint64(i), idx.w), t)
+		n++
+	}
+	sb.WriteString(best)
+	for i := 0; i < n; i++ {
+		sb.WriteByte(')')
+	}
+	return mk(sb.String(), first.w, first.signed)
 }
 
 type symstrIter struct {
@@ -323,4 +355,52 @@ func concreteOfW(s sym, v int64) value {
 		return uint8(v)
 	}
 	return int(v)
+}
+
+// symAddr is the address of an element selected by a symbolic index; it only
+// exists for IndexAddr results whose sole use is a load.
+type symAddr struct {
+	cells []value
+	idx   sym
+}
+
+var onlyLoadedCache = map[*ssa.IndexAddr]bool{}
+
+func onlyLoaded(instr *ssa.IndexAddr) bool {
+	if r, ok := onlyLoadedCache[instr]; ok {
+		return r
+	}
+	r := true
+	refs := instr.Referrers()
+	if refs == nil || len(*refs) == 0 {
+		r = false
+	} else {
+		for _, u := range *refs {
+			if uo, ok := u.(*ssa.UnOp); ok && uo.Op == token.MUL {
+				continue
+			}
+			if _, ok := u.(*ssa.DebugRef); ok {
+				continue
+			}
+			r = false
+		}
+	}
+	onlyLoadedCache[instr] = r
+	return r
+}
+
+// scalarCells reports whether all cells hold integer scalars (so that an ite
+// chain over them is a bit-vector term).
+func scalarCells(cells []value) bool {
+	if len(cells) == 0 || len(cells) > 4096 {
+		return false
+	}
+	for _, c := range cells {
+		switch c.(type) {
+		case sym, int, int8, int16, int32, int64, uint, uint8, uint16, uint32, uint64, uintptr:
+		default:
+			return false
+		}
+	}
+	return true
 }
